@@ -16,7 +16,7 @@ theorem uniqBridge_of_paths (X : SchemaX) (o : VOpts) (hop : o.operational = fal
   intro fuel sk ks cx1 cx2 cx3 cx hh hb hls hg hlen s i kk hbel hkind
   have G : uq_Glob X o := ⟨hop, hq, hl, hio, hs⟩
   have hv : uq_Lvl X fuel sk ks := ⟨hh, hb, hls, hg, hlen⟩
-  have F := level_facts X o hop hq fuel cx1 cx2 cx3 sk ks hls hg hlen
+  have F := level_facts X o hop hq fuel cx1 cx2 cx3 sk ks hls hg hlen (fun k hk => hio k (hb k hk))
   exact uq_bridge G hqu hnl hup hv F hbel hkind cx
 
 end LyModel.Valid
